@@ -98,10 +98,14 @@ class Gen:
         self.rng = rng
         self.deep = deep
         self.next_id = 0
+        self.canonical = False   # low registers and plain [base] memory operands only (C13's representative instantiation)
 
     # -- operand instantiation ------------------------------------------------
     def pick_reg(self, cls, mode, avoid_hi=False, low_only=False):
         ids = reg_ids(cls, mode, True)
+        if self.canonical:
+            low_only = True
+            avoid_hi = True
         if avoid_hi:
             ids = [r for r in ids if r[0] != "gp8hi"]
         if low_only:
@@ -122,6 +126,16 @@ class Gen:
             m["addr"] = "abs"
             return m
         areg = "gp64" if mode == 64 else "gp32"
+        if style is None and o.get("memSegment") in ("es", "ds") and ((form["opcode"]["mod"] == "" and form["encoding"] in ("OP", "NONE", "RM", "MR")) or form["name"].startswith(("maskmov", "vmaskmov"))):
+            # implicit memory operand (string instructions, maskmov*): es:[zdi] / ds:[zsi]-style, nothing else is encodable
+            m["base"] = (areg, 7 if o["memSegment"] == "es" else (7 if form["name"].startswith(("maskmov", "vmaskmov")) else 6))
+            if form["name"] in ("xlatb",):
+                m["base"] = (areg, 3)
+            if form["name"] in ("clzero", "monitor", "monitorx", "umonitor", "invlpga", "vmload", "vmsave", "vmrun"):
+                m["base"] = (areg, 0)
+            return m
+        if style is None and self.canonical:
+            style = "b"
         if style is None:
             style = rng.choice(["b", "bd8", "bd32", "bis", "bisd", "isd", "abs", "rip" if mode == 64 else "bd8",
                                 "a32" if mode == 64 else "a16", "bsp", "bbp", "seg"])
@@ -273,16 +287,20 @@ class Gen:
                 ops.append(("R", lead[0], lead[1] + rel))
                 continue
             r = self.pick_reg(cls, mode)
-            if cls == "k" and oi == 0 and form.get("consecutiveLead"):
-                r = ("k", rng.choice([0, 2, 4, 6]))
-            if form.get("consecutiveLead") and cls in ("xmm", "ymm", "zmm") and any((x.get("regIndexRel") or 0) for x in form["operands"]):
-                n = form["consecutiveLead"]
-                top = 32 if mode == 64 else 8
-                r = (cls, rng.below(top // n) * n)
-            if lead is None and (form.get("consecutiveLead") or 0) and (rel == 0) and cls in ("k", "xmm", "ymm", "zmm", "tmm"):
-                nxt = form["operands"][oi + 1] if oi + 1 < len(form["operands"]) else None
-                if nxt is not None and (nxt.get("regIndexRel") or 0):
-                    lead = r
+            # lead of a run of consecutive registers (next operands carry regIndexRel): align the lead to the run length
+            run = 1
+            for nxt in form["operands"][oi + 1:]:
+                if nxt.get("regIndexRel") or 0:
+                    run += 1
+                else:
+                    break
+            if run > 1 and lead is None:
+                n = 1
+                while n < run:
+                    n *= 2
+                top = {"k": 8, "tmm": 8}.get(cls, 32 if mode == 64 else 8)
+                r = (r[0], rng.below(top // n) * n)
+                lead = r
             ops.append(("R",) + r)
         # AH..BH cannot be combined with REX: re-pick conflicting registers so the base case is encodable
         has_hi = any(op[0] == "R" and op[1] == "gp8hi" for op in ops)
